@@ -29,10 +29,10 @@
    through setup(); the theorems say that no statement of the script leaves its block or disappears in either
    step, for every set of promoted names and every state of the sets. *)
 From Coq Require Import ZArith List Bool.
-From RV Require Import Base.Wire Base.Text Lang.Rx Lang.Lex Lang.PyLayout Lang.Layout Lang.DispatchSpec Lang.EmitBlocks Lang.ScriptFw Lang.LineShapes Lang.LineDispatch Lang.Promote Lang.EmitStmt Gen.Dispatch Gen.LineRx.
+From RV Require Import Base.Wire Base.Text Lang.Rx Lang.Lex Lang.PyLayout Lang.Layout Lang.DispatchSpec Lang.EmitBlocks Lang.ScriptFw Lang.LineShapes Lang.LineDispatch Lang.Promote Lang.EmitStmt Lang.TopFlow Gen.Dispatch Gen.LineRx.
 From RV Require Import Proofs.LexP Proofs.RelayoutP Proofs.RoundTripP Proofs.C07P Proofs.EmitBlocksP Proofs.FirmwareBlocksP.
 From RV Require Import Proofs.TopRoundTripP Proofs.ScriptFwP Proofs.ScriptTopP Proofs.RxP Proofs.LineShapesP Proofs.LineDispatchP.
-From RV Require Import Proofs.PromoteP Proofs.EmitStmtP.
+From RV Require Import Proofs.PromoteP Proofs.EmitStmtP Proofs.TopFlowP.
 Import ListNotations.
 Open Scope Z_scope.
 
@@ -194,8 +194,8 @@ Print Assumptions C07_dispatch_pinned.
    outside any loop - and it is no longer a listed gap, so C07_dispatch_accounted_partial no longer
    tolerates a tree that drops it *)
 Theorem C07_continue_accounted : forall c,
-  lookup K_continue_in_while c table = Some Translated /\
-  lookup K_continue_in_for c table = Some Translated /\
+  lookup K_continue_in_while c table = Some (match c with AfterLoop => Rejected | _ => Translated end) /\
+  lookup K_continue_in_for c table = Some (match c with AfterLoop => Rejected | _ => Translated end) /\
   lookup K_continue_outside_loop c table = Some (match c with MainLoop => Translated | _ => Rejected end) /\
   known_gap K_continue_in_while c = false /\ known_gap K_continue_in_for c = false /\
   known_gap K_continue_outside_loop c = false.
@@ -210,7 +210,7 @@ Theorem C07_dispatch_total_partial : forall k c o,
 Proof. exact dispatch_total. Qed.
 Print Assumptions C07_dispatch_total_partial.
 
-(* ... and each of the 127 (kind, context) pairs that used to be dropped (del, assert, raise, with, match, class,
+(* ... and each of the 158 (kind, context) pairs (127 + the same 31 kinds AFTER the main loop) that used to be dropped (del, assert, raise, with, match, class,
    nested / async def, decorator, loop else, for over an iterable, finally / try-else, annotated / chained /
    subscript / attribute assignment, walrus, yield, await, nonlocal, unknown methods of a declared device, calls on
    an undeclared receiver, `;`-joined statements, continuation lines, bodies on the header line) is now rejected
@@ -220,7 +220,7 @@ Theorem C07_former_gaps_rejected : forall p, In p former_gaps ->
 Proof. exact former_gaps_rejected. Qed.
 Print Assumptions C07_former_gaps_rejected.
 
-Example C07_former_gaps_nonvacuous : (length former_gaps = 127)%nat /\ (length known_gaps = 4)%nat.
+Example C07_former_gaps_nonvacuous : (length former_gaps = 158)%nat /\ (length known_gaps = 4)%nat.
 Proof. exact former_gaps_count. Qed.
 Print Assumptions C07_former_gaps_nonvacuous.
 
@@ -627,3 +627,71 @@ Example C07_dropped_repeat_not_sub :
         [s_two ++ l_pm13; s_two ++ l_out7; s_two ++ l_in7; s_two ++ h_a ++ s_open; s_two ++ s_close].
 Proof. exact dropped_repeat_not_sub. Qed.
 Print Assumptions C07_dropped_repeat_not_sub.
+
+(* ================================================================ fourth round: the end of the script, function variants *)
+(* parse() with its seen_main_loop flag (Lang/TopFlow.v).  An ACCEPTED script is parsed exactly as Lex.parse_top says
+   (so every theorem above applies to it) and its main loop is the LAST thing it contains: no second `while True:`, no
+   `def`, no `if` / `for` / `while` / `try`, no simple statement, no import and no target() call is accepted behind it *)
+Theorem C07_main_loop_is_last : forall ls its, parse_flow ls = Some its ->
+  its = parse_top ls /\ (forall pre r n post, its = pre ++ TLoop r n :: post -> post = []).
+Proof. exact accepted_script. Qed.
+Print Assumptions C07_main_loop_is_last.
+
+(* once the main loop is taken, ANY line that is neither blank nor a comment - whatever it is - makes parse() reject the
+   script ... *)
+Theorem C07_after_main_loop_rejected : forall f ls,
+  (exists l, In l (firstn f ls) /\ top_junk l = false) -> top_flow f true ls = None.
+Proof. exact after_loop_rejects. Qed.
+Print Assumptions C07_after_main_loop_rejected.
+
+(* ... and what is passed over there is only blank and comment lines, from which nothing is built *)
+Theorem C07_after_main_loop_only_junk : forall f ls its, top_flow f true ls = Some its ->
+  its = [] /\ forallb top_junk (firstn f ls) = true.
+Proof. intros f ls its H. split; [exact (after_loop_nil f ls its H)|exact (after_loop_all_junk f ls its H)]. Qed.
+Print Assumptions C07_after_main_loop_only_junk.
+
+(* witnesses: a second `while True:` and a `def` after the main loop are rejected (Lex.parse_top alone would build a
+   second loop item); a script whose main loop is followed by a blank and a comment line is accepted *)
+Example C07_after_main_loop_witnesses :
+  parse_flow w_second_loop = None /\ parse_flow w_late_def = None /\
+  (exists its, parse_flow w_loop_last = Some its /\ map is_loop its = [false; false; true]) /\
+  length (filter is_loop (parse_top w_second_loop)) = 2%nat.
+Proof. exact after_loop_witnesses. Qed.
+Print Assumptions C07_after_main_loop_witnesses.
+
+(* the regenerated line-accounting table, context AfterLoop (70+3 statement kinds at column 0 behind the main loop): *)
+Theorem C07_after_loop_never_translated : forall k o, lookup k AfterLoop table = Some o -> o <> Translated.
+Proof. exact after_loop_never_translated. Qed.
+Print Assumptions C07_after_loop_never_translated.
+
+Theorem C07_after_loop_statements_rejected : forall k, allowed k = false -> lookup k AfterLoop table = Some Rejected.
+Proof. exact after_loop_rejected. Qed.
+Print Assumptions C07_after_loop_statements_rejected.
+
+(* FUNCTION VARIANTS.  A def is parsed once for its primary signature and again - from the lines _parse_function keeps -
+   for every other argument-type signature a call site needs.  Every such variant has the block skeleton of the def ... *)
+Theorem C07_variant_has_the_defs_blocks : forall ls h raw ns,
+  In (TDef h raw ns) (parse_top ls) -> map erase (variant_nodes raw) = map erase ns.
+Proof. exact variant_structure. Qed.
+Print Assumptions C07_variant_has_the_defs_blocks.
+
+(* ... hence WHATEVER the statement layer makes of the lines for that signature (tr, cx, fv, fn, ex arbitrary), the
+   compound statements of the variant's firmware are the ones Python's block tree of the def prescribes *)
+Theorem C07_variant_firmware_blocks_partial : forall ls h raw ns tr cx fv fn ex ind,
+  In (TDef h raw ns) (parse_top ls) -> is_blank ind = true -> chain_ok tr PvNone (map erase ns) = true ->
+  c_read (emit_list ind (to_ir tr cx fv fn ex (map erase (variant_nodes raw)))) = Some (py_cs tr cx fv fn ex (map erase ns)).
+Proof. exact variant_firmware_blocks. Qed.
+Print Assumptions C07_variant_firmware_blocks_partial.
+
+(* the calls of _parse_simple_lines a re-specialisation makes are those of the def itself (what the tie observes) *)
+Theorem C07_variant_calls_are_the_defs : forall fuel ls h raw ns,
+  In (TDef h raw ns) (parse_top ls) -> variant_calls fuel raw = (2, 1%nat, raw) :: calls_nodes fuel 2 2%nat ns.
+Proof. exact variant_calls_are_the_defs. Qed.
+Print Assumptions C07_variant_calls_are_the_defs.
+
+Example C07_variant_witness :
+  exists h raw ns, In (TDef h raw ns) (parse_top w_level) /\
+    map (fun n => match n with SBlock k _ b => (Some k, length b) | SLeaf _ => (None, 0%nat) end) (map erase (variant_nodes raw))
+    = [(Some KIf, 1%nat); (Some KElif, 1%nat); (Some KFor, 1%nat); (None, 0%nat)].
+Proof. exact variant_witness. Qed.
+Print Assumptions C07_variant_witness.
